@@ -352,5 +352,11 @@ def jobs(tier, seed):
               dict(name="BM function pointer argument", fn=check_fnptr_arg, unwind=300),
               dict(name="BM destroy + create with another library", fn=check_reincarnate, unwind=300)]
     out = [Job("C11_bm_%d" % i, src, items[i::6], flags=fl) for i in range(6)]
+    # structs passed and returned by value (nested structs, multi-dimensional array members): kernels and oracles of C08
+    from specs import C08
+    for j in C08.jobs("quick", seed):
+        if j.name in ("C08_B32_S3", "C08_B32_S5", "C08_B32_S7"):
+            keep = [c for c in j.checks if "by-value" in c["name"]]
+            out.append(Job(j.name.replace("C08_", "C11_byval_"), j.source, keep, flags=j.flags, unwind=j.unwind, compare_logs=j.compare_logs, native=j.want_native))
     out.append(Job("C11_noop_static", NOOP_SRC, [dict(name="noop static call", fn=check_noop, unwind=300)], native=False))
     return out
